@@ -2,7 +2,8 @@
    Property theorems only; definitions in Hostile/Alloc.v, Hostile/Frames.v (models) and Edf/Model.v (the
    decoder, a total function on arbitrary byte lists); proofs in Hostile/*Proofs.v, AllocRefuted.v, Idem.v. *)
 From Ergo Require Import Common.Base Common.Bytes Common.Codec Edf.Model
-  Hostile.Alloc Hostile.AllocProofs Hostile.AllocRefuted Hostile.Idem Hostile.Frames Hostile.FramesProofs.
+  Hostile.Alloc Hostile.AllocProofs Hostile.AllocRefuted Hostile.Idem Hostile.Frames Hostile.FramesProofs
+  Hostile.HsMsg.
 Local Open Scope N_scope.
 
 (* ---- EDF decoder: memory against input ------------------------------------------------------------- *)
@@ -110,3 +111,38 @@ Print Assumptions C16_guards_refuted_before_fix.
 Theorem C16_decompress_alloc_refuted : blen w_z_bomb = 14 /\ z_alloc w_z_bomb = 4294967295.
 Proof. exact z_alloc_refuted. Qed.
 Print Assumptions C16_decompress_alloc_refuted.
+
+(* ---- handshake messages of a peer that knows the cookie -------------------------------------------- *)
+
+(* Every decoded MessageIntroduce / MessageAccept that is not valid (nil error in ErrCache, empty / own /
+   unexpected node name, creation 0, pool size outside 1..1024) is rejected before any of its fields is
+   used: the outcome is the plain rejection, not one of the failures the uses can produce. *)
+Theorem C16_hs_invalid_rejected : forall m, hs_msg_ok m = false -> hs_outcome true m = HRejected.
+Proof. exact hs_invalid_rejected. Qed.
+Print Assumptions C16_hs_invalid_rejected.
+
+(* ... and a valid one leads to an established connection; no message makes the node fail *)
+Theorem C16_hs_valid_connected : forall m, hs_msg_ok m = true -> hs_outcome true m = HConnected.
+Proof. exact hs_valid_connected. Qed.
+Print Assumptions C16_hs_valid_connected.
+
+Theorem C16_hs_never_crash : forall m w, hs_outcome true m <> HCrash w.
+Proof. exact hs_never_crash. Qed.
+Print Assumptions C16_hs_never_crash.
+
+(* before 3b195ea: a nil error in the peer's ErrCache was dereferenced (acceptor goroutine / caller of GetNode) *)
+Theorem C16_hs_errcache_refuted_before_fix :
+  hs_outcome false w_errnil = HCrash 1 /\ hs_outcome false w_errnil_dial = HCrash 1 /\
+  hs_outcome true w_errnil = HRejected /\ hs_outcome true w_errnil_dial = HRejected.
+Proof. exact hs_errcache_refuted_before_fix. Qed.
+Print Assumptions C16_hs_errcache_refuted_before_fix.
+
+(* before 46fa1fe: pool size 0, -1, 2^62 (its fourfold wraps to 0): no receive queues, serve divides by
+   zero; 2^20: memory exhausted building the queues *)
+Theorem C16_hs_poolsize_refuted_before_fix :
+  hs_outcome false w_pool0 = HCrash 2 /\ hs_outcome false w_pool_neg = HCrash 2 /\
+  hs_outcome false w_pool_wrap = HCrash 2 /\ hs_outcome false w_pool_big = HCrash 3 /\
+  hs_outcome true w_pool0 = HRejected /\ hs_outcome true w_pool_neg = HRejected /\
+  hs_outcome true w_pool_wrap = HRejected /\ hs_outcome true w_pool_big = HRejected.
+Proof. exact hs_poolsize_refuted_before_fix. Qed.
+Print Assumptions C16_hs_poolsize_refuted_before_fix.
